@@ -33,6 +33,27 @@ check("C07", "model_checking",
       "well-formed payloads for known verbs (malformation at framing level, as the property says).",
       "exhaustive bounded arrival-sequence enumeration + bounded schedule deviations on the real dispatch code", "DESIGN.md §2 C07", "E1+E2+E3")
 
+check("C08", "model_checking",
+      "Explicit-state BFS to CLOSURE (~2,500 states, ~16,000 transitions) over the real GeckoAsyncSpaMan (real pump, _handle_event, reset, set_spa_info, locate/connect wrappers, status sensor, real spa.disconnect) with discover/_connect outcomes injected step-wise, spa-originated events raised from their own tasks, user resets, and suspension of the client's handle_event; lock-step with a lifecycle table + invariants at every delivery.",
+      "environment injected at the discover/_connect seams (as tests/test_spaman.py does); light facade that fails exactly when the real constructor must; state canonicalisation documented in props/c08.py.",
+      "explicit-state BFS over real objects (rebuild-and-replay) to closure, reference-table lock-step", "DESIGN.md §2 C08", "E4 on E1")
+check("C09", "fault_enumeration",
+      "Whole async stack against the real simulator in virtual time: fault scripts (start point x up to 3 phases from {blackout, RF-error, lossy} x durations) and user reset/set_spa_info injected at EVERY loop step of the baseline connection (+ timer-order deviations); bounded liveness: CONNECTED within B virtual seconds of the network being healthy with the client block mirroring the spa, unreachable spa reported in time, sequence pump never ends.",
+      "bound derived from the idle GeckoConfig; network healthy for ever after the script; two recorded known findings (ERROR_SPA_NOT_FOUND terminal, reset in the last steps of a connection attempt).",
+      "exhaustive crash-point injection + enumerated fault scripts on the real stack (bounded liveness)", "DESIGN.md §2 C09", "E1+E2+E3")
+check("C10", "fault_enumeration",
+      "Whole async stack: async_reset and context exit injected at every loop step through discovery/handshake/early steady state and a stride through the periodic tail, blackout and error states (+ first steps of every state, timer deviations, reconnect cycles); every endpoint/task existing at the injection must be closed/done promptly, late datagrams to old endpoints must not reach client observers, resources must not grow over cycles.",
+      "endpoints = VTransports handed out by the harness loop; 'promptly' = 5 virtual s (12 s for a discovery legitimately in progress); known finding: context exit leaves the spa endpoint open.",
+      "exhaustive crash-point injection with resource accounting on the real stack", "DESIGN.md §2 C10", "E1+E2+E3")
+check("C15", "model_checking",
+      "Real GeckoAsyncLocator.discover against scripted responders: all spa sets of size 0..3 from a pool with '|', latin-1 and empty names x per-spa latency from a 6-value grid around the initial wait and the timeout x reply multiplicity x 5 filter modes, plus timer-order deviations <=2; oracle on the listed descriptors, the return time, endpoint closure and helper tasks.",
+      "responders answer every broadcast; replies built by a reference encoder.",
+      "exhaustive scenario enumeration + bounded schedule deviations on the real locator", "DESIGN.md §2 C15", "E1+E2+E3")
+check("C17", "model_checking",
+      "Real config_sleep/set_config_mode on the virtual loop: all switch sequences up to length 4 (table completeness), up to 3 sleepers x delays x starts x up to 2 switches on a common time grid with EVERY order of simultaneous timers; real connected facades of 5 snapshot configurations through every on/off combination of pumps and blowers.",
+      "a switch before any sleeper ever ran trips the library's own assert and is excluded; early wake-ups are not excluded by the statement and not reported.",
+      "exhaustive enumeration of sleeper/switch plans with all tie orders (unbounded deviations)", "DESIGN.md §2 C17", "E1+E3")
+
 NOT_YET = "harness not built yet in this session (planned, see DESIGN.md §2)"
 
 def main():
